@@ -47,6 +47,10 @@ class PM3(PM2):
     d: Optional[int]
 
 
+class PMX(PM):  # sibling of PM2: unrelated to it
+    c: Optional[int]
+
+
 class PPrim(BaseModel):
     i: Optional[int]
     b: Optional[bool]
@@ -85,6 +89,10 @@ class PChain(BaseModel):
     lm: Optional[List[PM]]
 
 
+class PSib(BaseModel):
+    m: Optional[PM]
+
+
 # ---- MetadataSchema, partials made by `PartialSchemas` (`Schema.Partial`)
 
 
@@ -99,6 +107,10 @@ class SM2(SM):
 
 class SM3(SM2):
     d: Optional[int]
+
+
+class SMX(SM):  # sibling of SM2: unrelated to it
+    c: Optional[int]
 
 
 class SPrim(MetadataSchema):
@@ -163,14 +175,24 @@ class SChain(MetadataSchema):
     lm: Optional[List[SM]]
 
 
+class SSib(MetadataSchema):
+    class Plugin:
+        name = "vt.c14sib"
+        version = (0, 1, 0)
+
+    m: Optional[SM]
+
+
 FACTORIES = ("plain", "schema")
 
 _PY = {
-    "plain": dict(M=PM, M2=PM2, M3=PM3, Prim=PPrim, Scal=PScal, Coll=PColl, Nest=PNest, Rec=PRec, Chain=PChain),
-    "schema": dict(M=SM, M2=SM2, M3=SM3, Prim=SPrim, Scal=SScal, Coll=SColl, Nest=SNest, Rec=SRec, Chain=SChain),
+    "plain": dict(M=PM, M2=PM2, M3=PM3, Prim=PPrim, Scal=PScal, Coll=PColl, Nest=PNest, Rec=PRec, Chain=PChain, MX=PMX, Sib=PSib),
+    "schema": dict(M=SM, M2=SM2, M3=SM3, Prim=SPrim, Scal=SScal, Coll=SColl, Nest=SNest, Rec=SRec, Chain=SChain, MX=SMX, Sib=SSib),
 }
 
 TOP_CLASSES = ("Prim", "Scal", "Coll", "Nest", "Rec", "Chain")
+# classes whose nested position holds *unrelated* sibling classes: associativity is not claimed
+EXTRA_CLASSES = ("Sib",)
 
 # class id -> [(field, kind text, required in the complete model, declared nested class id or None)]
 DESCR = {
@@ -191,11 +213,14 @@ DESCR = {
     "Nest": [("m", "M", True, "M"), ("om", "Optional[M]", False, "M"), ("lm", "List[M]", True, "M")],
     "Rec": [("v", "Optional[int]", False, None), ("r", "Optional[Rec]", False, "Rec")],
     "Chain": [("m", "Optional[M]", False, "M"), ("lm", "Optional[List[M]]", False, "M")],
+    "Sib": [("m", "Optional[M]", False, "M")],
 }
 DESCR["M2"] = DESCR["M"] + [("b", "Optional[int]", False, None)]
 DESCR["M3"] = DESCR["M2"] + [("d", "Optional[int]", False, None)]
 
-PARENT = {"M2": "M", "M3": "M2"}  # the nested inheritance chain M <- M2 <- M3
+DESCR["MX"] = DESCR["M"] + [("c", "Optional[int]", False, None)]
+
+PARENT = {"M2": "M", "M3": "M2", "MX": "M"}  # the chain M <- M2 <- M3, and MX a sibling of M2
 
 
 def ancestors(c):
@@ -326,6 +351,26 @@ def corpora(factory, cid, seed):
                 ],
             ),
             ("lm", [MISSING, _LM(_M("M2", b=0)), _LM(_M("M", a=i1), _M("M3"))]),
+        ]
+    if cid == "Sib":
+        return [
+            (
+                "m",
+                [
+                    MISSING,
+                    _M("M", a=0),
+                    _M("M2", b=0),
+                    _M("MX", c=0),
+                    _M("M2", a=i1),
+                    _M("MX", a=i1, c=i1),
+                    _M("M"),
+                    _M("MX"),
+                    _M("M2"),
+                    _M("M", a=i2),
+                    _M("M2", a=0, b=i1),
+                    _M("MX", a=0, c=i2),
+                ],
+            )
         ]
     raise KeyError(cid)
 
